@@ -19,7 +19,7 @@ ASSUMPTIONS = ["a process forked from the parent that has imported pygradflow bu
 FRESH = True
 CASE_ALARM_S = 300
 OPS_QUICK = ["default", "exact_filter", "resolve", "scaled", "scaled_b", "lamerr", "cb_abort", "pareto", "nostart_then_y"]
-OPS_THOROUGH = OPS_QUICK + ["unsym", "derivcheck", "debug", "integration", "second", "rcond_single", "exp_far", "singular", "banded", "longlp", "single_tiny"]
+OPS_THOROUGH = OPS_QUICK + ["unsym", "derivcheck", "debug", "integration", "second", "rcond_single", "exp_far", "singular", "banded", "longlp", "single_tiny", "gradjac_empty"]
 
 
 _SHARED = {}
@@ -110,6 +110,13 @@ def op_setup(op):
         # an unrelated tiny solve in single precision
         spec = G.raw(1, {"H": [[2.0]], "g": [-2.0]}, [], ["-inf"], ["inf"], [0.0], "tiny_single")
         params = R.make_params({"iteration_limit": 30, "params": {"precision": "Single"}})
+        prob = UserProblem(spec)
+    elif op == "gradjac_empty":
+        # GradJac scaling computed at a point where a constraint row has no stored Jacobian entry (pattern = current non-zeros)
+        from pgfmc.model import specs as S
+        spec = dict(S.mk(2, "qdiag", [("sphere", "ranged"), ("affine", "upper")], ["boxed", "free"]))
+        spec["nzpat"] = True
+        params = R.make_params({"iteration_limit": 40}, {"type": "GradJac", "at": [0.0, 0.0], "dual": [1.0, 1.0]})
         prob = UserProblem(spec)
     elif op == "banded":
         # 30 variables, 6 rows: large enough for fill-reducing orderings of the factorisation to matter
@@ -270,7 +277,7 @@ def references(tier):
     return refs
 
 
-PAIR_OPS = ["rcond_single", "exp_far", "default", "singular", "banded", "longlp", "single_tiny"]
+PAIR_OPS = ["rcond_single", "exp_far", "default", "singular", "banded", "longlp", "single_tiny", "gradjac_empty"]
 
 
 def cases(tier, seed):
